@@ -105,10 +105,16 @@ def run(out, info, tier, seed):
     nremote = 4 if tier == 'quick' else 40
     evaluations = 0; nontriv = set(); violations = []; known = {}; mism = []; hist = collections.Counter(); samples = []
     t0 = time.time()
-    for k in range(n):
+    # the witnesses of the listed known findings come first: each is run under the same variants as a generated scenario
+    import os
+    pre = []
+    for fid, fnd in kf.items():
+        if fnd.get('status') == 'known' and isinstance(fnd.get('witness'), str) and os.path.exists(os.path.join(common.VERIF, fnd['witness'])):
+            pre.append(json.load(open(os.path.join(common.VERIF, fnd['witness'])))['case'])
+    for k in range(-len(pre), n):
         crng = random.Random(seed * 1000003 + k)
-        case = gen.gen_forecast_case(crng) if k % 11 == 5 else gen.gen_sibling_reader_case(crng) if k % 9 == 7 else gen.gen_chain_case(crng) if k % 8 == 3 else gen.gen_fanin_case(crng) if k % 6 == 1 else gen.gen_parallel_case(crng) if k % 3 == 2 else gen.gen_case(crng, groups=True, clean=0.8, maxn=4)
-        if k % 5 == 4: case['mirror'] = crng.choice([1, 2])       # several entities per simulator, connected index by index
+        case = pre[k + len(pre)] if k < 0 else gen.gen_forecast_case(crng) if k % 11 == 5 else gen.gen_sibling_reader_case(crng) if k % 9 == 7 else gen.gen_chain_case(crng) if k % 8 == 3 else gen.gen_fanin_case(crng) if k % 6 == 1 else gen.gen_parallel_case(crng) if k % 3 == 2 else gen.gen_case(crng, groups=True, clean=0.8, maxn=4)
+        if k >= 0 and k % 5 == 4: case['mirror'] = crng.choice([1, 2])       # several entities per simulator, connected index by index
         variants = []
         for lazy in (True, False):
             for cache in (True, False):
@@ -161,7 +167,7 @@ def run(out, info, tier, seed):
             else:
                 if any(len(x) > 1 for x in obs.values()) and case['edges']:
                     nontriv.add(json.dumps(case, sort_keys=True))
-        if ref is not None and k < nremote and not any(h for h in (monitors.hyp_C03(ctx, case) if ctx else [])):
+        if ref is not None and 0 <= k < nremote and not any(h for h in (monitors.hyp_C03(ctx, case) if ctx else [])):
             robs = remote_observations(case, True, True, seed + k)
             evaluations += 1
             hist['remote'] += 1
